@@ -7,7 +7,7 @@ from typing import Optional
 import z3
 
 from .front import ClassInfo, FuncInfo
-from .interp import seq_concat
+from .interp import seq_concat, acc
 from .interp import (BreakSig, ContinueSig, Frame, Interp, PathAbort, RaiseSig, ReturnSig, Unsupported, _m,
                      BUILTIN_EXC_BASES)
 from .tys import (NONE, SV, PyList, PyTuple, Ref, TAbs, TAny, TBool, TDict, TEnum, TInt, TNone, TObj, TOpt, TRec,
@@ -25,7 +25,7 @@ SPEC_NAMES = {"forall", "exists", "implies", "old", "has", "get", "result", "iff
               "card", "is_some", "the", "select", "store", "subset", "inrange", "cls_is", "same_obj", "let",
               "dom_eq", "unchanged", "nth", "Seq", "contains", "distinct", "sub", "count_in", "spec_call", "pre",
               "image_has", "inj", "keys_of", "ghost", "concat", "empty_seq", "isNone", "notNone", "eq", "view_of",
-              "kind_of", "elems"}
+              "kind_of", "elems", "as_list"}
 
 
 class Evaluator(Interp):
@@ -473,6 +473,10 @@ class Evaluator(Interp):
                 return z3.And(z3.Not(b.ty.is_none(b.term)), b.ty.val(b.term) == a.term)
         if isinstance(a, VClass) and isinstance(b, VClass):
             return z3.BoolVal(a.ci.qname == b.ci.qname)
+        if isinstance(a, VGen) and isinstance(b, SV) and b.ty is TNone:
+            return z3.BoolVal(False)
+        if isinstance(b, VGen) and isinstance(a, SV) and a.ty is TNone:
+            return z3.BoolVal(False)
         raise Unsupported(f"`is` between {a} and {b}")
 
     def py_in(self, a, b, fr):
@@ -650,7 +654,14 @@ class Evaluator(Interp):
                     idx = self.unopt(idx)
                 k = self.key_of(idx, t.k)
                 present = z3.Select(t.dom(base.term), k)
-                if not fr.pure:
+                if not fr.pure and t.default_list:
+                    if not self.branch(present):
+                        # defaultdict(list): a missing key reads as a new empty list (the entry is
+                        # created; every use in the verified code writes the list back)
+                        if isinstance(node, ast.Subscript):
+                            self.assign(node.value, self.dict_store(base, idx, self.mk_seq(t.v, [])), fr, None, mutate=True)
+                        return self.mk_seq(t.v, [])
+                elif not fr.pure:
                     if not self.branch(present):
                         self.raise_exc("KeyError", idx)
                 elif getattr(fr, "pure_code", False):
@@ -681,7 +692,7 @@ class Evaluator(Interp):
                     i = it.as_long()
                     if i < 0:
                         i += len(t.elems)
-                    return self.assume_wf(SV(t.elems[i], z3.simplify(t.get(base.term, i))))
+                    return self.assume_wf(SV(t.elems[i], acc(t.get(base.term, i))))
                 raise Unsupported("symbolic index into tuple")
             if isinstance(t, (TObj, TRec)):
                 return self.call_method(base, "__getitem__", [idx], {}, fr)
@@ -1086,7 +1097,7 @@ class Evaluator(Interp):
         if isinstance(v, SV) and isinstance(v.ty, TTuple):
             if len(v.ty.elems) != n:
                 self.raise_exc("ValueError")
-            return [self.assume_wf(SV(t, z3.simplify(v.ty.get(v.term, i)))) for i, t in enumerate(v.ty.elems)]
+            return [self.assume_wf(SV(t, acc(v.ty.get(v.term, i)))) for i, t in enumerate(v.ty.elems)]
         if isinstance(v, SV) and isinstance(v.ty, TSeq):
             if not self.branch(z3.Length(v.term) == n):
                 self.raise_exc("ValueError")
